@@ -8,7 +8,7 @@ and one JSON object per output line with one entry per requested item.
 values: null | true/false | <int> | {"f": repr} | "str" | [..] | {"t":[..]} | {"s":[..]} | {"d":[[k,v],..]} | {"e":[cls,name]}
 types : "str"|"int"|"float"|"bool"|"none"|"any" | {"u":[..]} | {"l":t} | {"d":["str"|"int",t]} | {"t":[..]} | {"tv":t}
         | {"s":t} | {"lit":[..]} | {"e":[cls,[names]]}
-oracle: {"yaml":[[s, value | {"x":1}]], "any":[[s, value | {"x":1}]], "bigflt":[[i, repr]], "intof":[[s, i | null]]}
+oracle: {"yaml":[[s, value | {"x":1}]], "any":[[s, value | {"x":1}]], "bigflt":[[i, repr | null (= OverflowError)]], "intof":[[s, i | null]]}
         ({"x":1} = the loader raised).  A string that the model could look up but that has no table entry is
         reported as {"miss": s} instead of guessing.
 -/
@@ -109,7 +109,7 @@ partial def tyOfJson : Json → Except String Ty
 structure Tables where
   yaml : List (String × Option Val) := []
   any : List (String × Option Val) := []
-  bigflt : List (Int × String) := []
+  bigflt : List (Int × Option String) := []
   intof : List (String × Option Int) := []
 
 def loadEntry (j : Json) : Except String (String × Option Val) :=
@@ -127,7 +127,8 @@ def tablesOfJson (j : Json) : Except String Tables := do
   let yaml ← (arr "yaml").mapM loadEntry
   let any ← (arr "any").mapM loadEntry
   let bigflt := (arr "bigflt").filterMap fun
-    | .arr #[.num i, .str r] => some (i.mantissa, r)
+    | .arr #[.num i, .str r] => some (i.mantissa, some r)
+    | .arr #[.num i, .null] => some (i.mantissa, none)
     | _ => none
   let intof := (arr "intof").filterMap fun
     | .arr #[.str s, .num i] => some (s, some i.mantissa)
@@ -138,7 +139,7 @@ def tablesOfJson (j : Json) : Except String Tables := do
 def Tables.oracle (T : Tables) : Oracle where
   yaml s := match T.yaml.lookup s with | some r => r | none => none
   loadAny s := match T.any.lookup s with | some r => r | none => none
-  bigFlt i := match T.bigflt.lookup i with | some r => r | none => "?"
+  bigFlt i := match T.bigflt.lookup i with | some r => r | none => none
   intOf s := match T.intof.lookup s with | some r => r | none => none
 
 /-- strings (values and dict keys) occurring in a value -/
